@@ -1044,9 +1044,9 @@ def run(res):
     t0 = time.time()
     correspond(res, n, lc, lo, nn)
     t1 = time.time()
-    correspond_conc(res, 120 if res.tier == 'quick' else 4000)
+    correspond_conc(res, 120 if res.tier == 'quick' else 3000)
     t2 = time.time()
-    correspond_fork(res, 8 if res.tier == 'quick' else 300)
+    correspond_fork(res, 8 if res.tier == 'quick' else 150)
     res.cov['stage_wall_s'] = dict(sequential_histories=round(t1 - t0, 1), threads=round(t2 - t1, 1),
                                    fork=round(time.time() - t2, 1))
     if res.broken and not res.alarms and res.tier == 'quick':
